@@ -74,7 +74,97 @@ def gen_literal(rng, pool):
     return fields
 
 
+def tm_vars(t):
+    if t[0] == "var":
+        return {t[1]}
+    if t[0] == "num":
+        return set()
+    out = set()
+    for x in t[1:]:
+        out |= tm_vars(x)
+    return out
+
+
+def tm_occ(t):
+    if t[0] == "var":
+        return 1
+    if t[0] == "num":
+        return 0
+    return sum(tm_occ(x) for x in t[1:])
+
+
+def history_cost(steps):
+    """The extracted evaluators do not memoise: reading a field costs about (variable occurrences
+    per field)^(fuel) in the worst case (cyclic records, repeated self-merges double the bodies).
+    Returns that bound so that the generator can discard the few histories that would take minutes."""
+    recs, worst, names = [], 1, set()
+    for s in steps:
+        if s[0] == "lit":
+            r = {}
+            for f in s[1]:
+                names.add(f[0])
+                v = tm_occ(f[2]) if f[2] is not None else None
+                c = sum(tm_occ(t) for (_, t) in fctrs(f))
+                r[f[0]] = (f[1], v, c)
+            recs.append(r)
+        else:
+            r1, r2 = recs[s[1]], recs[s[2]]
+            r = dict(r1)
+            for k, (p2, v2, c2) in r2.items():
+                if k not in r:
+                    r[k] = (p2, v2, c2)
+                    continue
+                p1, v1, c1 = r[k]
+                if v1 is not None and v2 is not None:
+                    a, b = prio_rank(p1), prio_rank(p2)
+                    p, v = (p1, v1 + v2) if a == b else ((p1, v1) if a > b else (p2, v2))
+                elif v1 is not None:
+                    p, v = p1, v1
+                else:
+                    p, v = p2, v2
+                r[k] = (p, v, c1 + c2)
+            recs.append(r)
+        for (_, v, c) in recs[-1].values():
+            worst = max(worst, (v or 0) + c)
+    # the depth of the chains of references: over the union of all literals, name k -> the names its
+    # definitions and contracts mention; a cycle means that the fuel (names + 3) can be used up
+    edges = {}
+    for s in steps:
+        if s[0] == "lit":
+            for f in s[1]:
+                e = edges.setdefault(f[0], set())
+                for t in ([f[2]] if f[2] is not None else []) + [t for (_, t) in fctrs(f)]:
+                    e.update(tm_vars(t))
+    depth, state = {}, {}
+
+    def longest(k):
+        if state.get(k) == 1:
+            return None                      # cycle
+        if k in depth:
+            return depth[k]
+        state[k] = 1
+        best = 0
+        for x in edges.get(k, ()):
+            d = longest(x)
+            if d is None:
+                return None
+            best = max(best, d + 1)
+        state[k] = 2
+        depth[k] = best
+        return best
+    ds = [longest(k) for k in list(edges)]
+    exponent = len(names) + 3 if any(d is None for d in ds) else max(ds + [0]) + 2
+    return worst ** exponent
+
+
 def gen_history(rng):
+    while True:
+        h = gen_history_raw(rng)
+        if history_cost(h) <= 5000000:
+            return h
+
+
+def gen_history_raw(rng):
     pool = list(range(rng.range(2, 5)))
     steps = []
     for _ in range(rng.range(2, 3)):
